@@ -1565,10 +1565,27 @@ impl MintsAssets {
 }
 
 #[wasm_bindgen]
-#[derive(
-    Clone, Debug, Eq, Ord, PartialEq, PartialOrd, serde::Serialize, serde::Deserialize, JsonSchema,
-)]
+#[derive(Clone, Debug, Eq, Ord, PartialEq, PartialOrd, serde::Serialize, JsonSchema)]
 pub struct MintAssets(std::collections::BTreeMap<AssetName, Int>);
+
+// the JSON form goes through the same check as `insert`: a mint amount is never zero
+impl<'de> serde::de::Deserialize<'de> for MintAssets {
+    fn deserialize<D>(deserializer: D) -> Result<Self, D::Error>
+    where
+        D: serde::de::Deserializer<'de>,
+    {
+        let map = <std::collections::BTreeMap<AssetName, Int> as serde::de::Deserialize>::deserialize(
+            deserializer,
+        )?;
+        let mut assets = MintAssets::new();
+        for (name, amount) in &map {
+            assets
+                .insert(name, amount)
+                .map_err(|e| serde::de::Error::custom(format!("{:?}", e)))?;
+        }
+        Ok(assets)
+    }
+}
 
 #[wasm_bindgen]
 impl MintAssets {
